@@ -417,7 +417,7 @@ def run(ctx):
         extra.check_dl_reset(ck, prog, config, 'C17-e')
         # ---- f  the callbacks' fixed-size scratch arrays: every transfer stays inside the array
         from ..rules import arrayext
-        na = arrayext.check_array_extents(ck, prog, config, 'C17-f', scope='lib', units=('dl/dl.c', 'dl/multipart.c', 'dl/range.c'))
+        na = arrayext.check_array_extents(ck, prog, config, 'C17-f', scope='lib', units=('dl/dl.c', 'dl/multipart.c', 'dl/range.c', 'lib/log.c'))
         ck.min_instances('(call, fixed-size array) sites below the download callbacks', na, 2)
         from ..rules import sizepair
         sizepair.check_size_pairs(ck, prog, config, 'C17-g', min_exits=1, units=('dl/multipart.c', 'dl/dl.c'))
